@@ -119,6 +119,7 @@ impl HandshakeService {
 
     /// Remove outbound substream from [`HandshakeService`].
     pub fn remove_outbound(&mut self, peer: &PeerId) -> Option<Substream> {
+        self.discard_ready(peer, Direction::Outbound);
         self.substreams
             .remove(&(*peer, Direction::Outbound))
             .map(|(substream, _, _)| substream)
@@ -126,14 +127,28 @@ impl HandshakeService {
 
     /// Remove inbound substream from [`HandshakeService`].
     pub fn remove_inbound(&mut self, peer: &PeerId) -> Option<Substream> {
+        self.discard_ready(peer, Direction::Inbound);
         self.substreams
             .remove(&(*peer, Direction::Inbound))
             .map(|(substream, _, _)| substream)
     }
 
+    /// Discard the result of a finished negotiation which has not been reported yet.
+    ///
+    /// The result belongs to the substream that is currently stored for `(peer, direction)`. If
+    /// that substream is removed or replaced, the result must not be applied to a substream that
+    /// is later stored under the same key.
+    fn discard_ready(&mut self, peer: &PeerId, direction: Direction) {
+        self.ready.retain(|(ready_peer, ready_direction, _)| {
+            !(ready_peer == peer && ready_direction == &direction)
+        });
+    }
+
     /// Negotiate outbound handshake.
     pub fn negotiate_outbound(&mut self, peer: PeerId, substream: Substream) {
         tracing::trace!(target: LOG_TARGET, ?peer, "negotiate outbound");
+
+        self.discard_ready(&peer, Direction::Outbound);
 
         self.substreams.insert(
             (peer, Direction::Outbound),
@@ -149,6 +164,8 @@ impl HandshakeService {
     pub fn read_handshake(&mut self, peer: PeerId, substream: Substream) {
         tracing::trace!(target: LOG_TARGET, ?peer, "read handshake");
 
+        self.discard_ready(&peer, Direction::Inbound);
+
         self.substreams.insert(
             (peer, Direction::Inbound),
             (
@@ -162,6 +179,8 @@ impl HandshakeService {
     /// Write handshake to remote peer.
     pub fn send_handshake(&mut self, peer: PeerId, substream: Substream) {
         tracing::trace!(target: LOG_TARGET, ?peer, "send handshake");
+
+        self.discard_ready(&peer, Direction::Inbound);
 
         self.substreams.insert(
             (peer, Direction::Inbound),
